@@ -996,7 +996,13 @@ def replay(path: str) -> int:
     if rep.get("finding_key", {}).get("where") == "catalogue":
         gen = generate()
         chk = Check("C01", "quick", int(rep.get("seed", 0)))
-        mm, _ = validate_catalogue(chk, common.Rng(int(rep.get("seed", 0))), gen, False)
+        stage = validate_catalogue(chk, common.Rng(int(rep.get("seed", 0))), gen, False)
+        lines = next(stage)
+        try:
+            stage.send(common.run_driver("C01", lines))
+            mm = []
+        except StopIteration as st:
+            mm, _ = st.value
         ent = rep["finding_key"].get("entry")
         hits = [m for m in mm if m["entry"] == ent]
         print("mismatches now:", hits[:5])
